@@ -338,7 +338,7 @@ func (c *checker) checkTree(es []ent, ops []mop, qr []qres, fsList []string, vie
 
 			for _, d := range compare(q, want, got) {
 				path := d.Path
-				if in.bp && path != "" {
+				if in.bp && d.HasPath {
 					path = fromBP(c.R, path)
 				}
 
@@ -347,7 +347,7 @@ func (c *checker) checkTree(es []ent, ops []mop, qr []qres, fsList []string, vie
 				switch q.Func {
 				case "Glob":
 					sig["pattern"] = patClass(q)
-					if path != "" {
+					if d.HasPath {
 						sig["target"] = c.class(path)
 					}
 				case "ReadDir":
@@ -360,7 +360,7 @@ func (c *checker) checkTree(es []ent, ops []mop, qr []qres, fsList []string, vie
 						sig["cb"] += "@" + q.CbAt
 					}
 
-					if path != "" {
+					if d.HasPath {
 						sig["target"] = c.class(path)
 					}
 				}
